@@ -292,7 +292,7 @@ def analyse(D):
                 A.selfcall = True
             if len({s.callee for s in c}) != len(c):
                 A.selfcall = True
-    for k in T:
+    for k in D.bodies:  # every body is validated as the root of a call tree, uncalled methods too
         for c1, c2 in itertools.combinations(A.ch[k], 2):
             if c1[-1].callee == c2[-1].callee and not D.meth[c1[-1].callee]["nonex"] and not chain_excl(c1, c2):
                 A.double = True
@@ -381,7 +381,7 @@ def invalid_reasons(A):
 
 def repair(D, rnd):
     """Turn a generated design into a well-formed one by deleting the offending elements (keeps most of the structure)."""
-    for _ in range(200):
+    for _ in range(300):
         A = analyse(D)
         if A.double:
             remove_site(D, A.double_witness[2])
@@ -391,30 +391,36 @@ def repair(D, rnd):
             D.confl = [c for c in D.confl if not (c[0] == a and c[1] == b)]
             continue
         if A.prio_cycle:
-            if D.confl and any(pr != Priority.UNDEFINED for _, _, pr in D.confl):
-                i = next(i for i, c in enumerate(D.confl) if c[2] != Priority.UNDEFINED)
+            prio = [i for i, c in enumerate(D.confl) if c[2] != Priority.UNDEFINED]
+            if prio:
+                i = rnd.choice(prio)
                 D.confl[i] = (D.confl[i][0], D.confl[i][1], Priority.UNDEFINED)
             elif D.sb:
-                D.sb.pop()
+                D.sb.pop(rnd.randrange(len(D.sb)))
                 for b in D.bodies.values():
                     if b.rdy_or is not None and not any(x[0] == b.rdy_or and x[1] == b.key for x in D.sb):
                         b.rdy_or = None
             else:
-                return None
+                nested_callee_sites = [s for s in D.sites if D.bodies[("m", s.callee)].parent is not None or s.caller.parent is not None]
+                if not nested_callee_sites:
+                    return None
+                remove_site(D, rnd.choice(nested_callee_sites))
             continue
         if A.deadlock:
-            if any(rd for _, _, rd in D.sb):
-                i = next(i for i, x in enumerate(D.sb) if x[2])
+            rds = [i for i, x in enumerate(D.sb) if x[2]]
+            if rds:
+                i = rnd.choice(rds)
                 D.sb[i] = (D.sb[i][0], D.sb[i][1], False)
                 continue
-            # nested transaction conflicting with its parent: drop explicit conflicts, then call sites of the nested body
             if D.confl:
                 D.confl.pop()
                 continue
-            victim = next((s for t in A.T for d in A.deps[t] if d[0] == "t" and d in A.conf[t] for c in A.ch[t] for s in c[:1]), None)
-            if victim is None:
+            bad = [(t, d) for t in A.T for d in A.deps[t] if d[0] == "t" and d in A.conf[t]]
+            t, d = bad[0]
+            cand = [c[0] for c in A.ch[t]] or [c[0] for c in A.ch[d]]
+            if not cand:
                 return None
-            remove_site(D, victim)
+            remove_site(D, rnd.choice(cand))
             continue
         return A
     return None
